@@ -1749,7 +1749,7 @@ func SelectStrategy(n *nfa.NFA, re *syntax.Regexp, literals *literal.Seq, config
 	//   - a word boundary together with a lazy quantifier: the boundary shortcut of
 	//     the scan loops cannot tell whether the thread that matched outranks the
 	//     ones that go on (\d.*?\b must stop at the first boundary, \d.*\b must not).
-	if hasWordBoundaryAnchorCombo(re) || hasMisplacedAnchor(re) || (hasWordBoundary(re) && hasNonGreedyQuantifier(re)) {
+	if (hasWordBoundary(re) && containsAnchor(re)) || hasMisplacedAnchor(re) || (hasWordBoundary(re) && hasNonGreedyQuantifier(re)) {
 		return UseNFA
 	}
 
